@@ -124,7 +124,16 @@ pub fn dec_spelling(rng: &mut Rng) -> (String, u64, u32) {
             let f = rng.next() % 10_000_000_000_000_000;
             (format!("{i}.{f:016}"), i * 10_000_000_000_000_000 + f, 16)
         }
-        6 => (String::from("0"), 0, 0),
+        6 => {
+            if rng.chance(1, 2) {
+                (String::from("0"), 0, 0)
+            } else {
+                // a very small but non-zero coefficient: 0.00…0d with up to 25 zeros
+                let z = 10 + rng.below(16) as usize;
+                let d = 1 + rng.below(9);
+                (format!("0.{}{}", "0".repeat(z), d), d, z as u32 + 1)
+            }
+        }
         _ => {
             let i = rng.below(10);
             let f = rng.below(10);
@@ -226,18 +235,37 @@ pub fn generate(seed: u64, thorough: bool, emit: &mut dyn FnMut(String)) {
         let (text, want) = gen_poly_text(&mut rng);
         emit(format!("parse {} {} | {}", i % 2, req_string(&text), want));
         if i % 3 == 0 {
-            let x = if rng.chance(1, 10) { 0.0 } else { rng.dyadic(256, 6) };
+            let x = if rng.chance(1, 10) {
+                0.0
+            } else if rng.chance(1, 4) {
+                // far from the origin: every term counts, however small its coefficient
+                rng.uniform(1.0, 9.0) * 10f64.powi(rng.range(2, 9) as i32) * if rng.chance(1, 2) { -1.0 } else { 1.0 }
+            } else {
+                rng.dyadic(256, 6)
+            };
             emit(format!("pe {} {} | {}", req_string(&text), rbits(x), want));
         }
     }
     let m = if thorough { 40_000 } else { 2000 };
     for i in 0..m {
-        let cs = crate::polyops::rand_coeffs(&mut rng, 12);
+        let mut cs = crate::polyops::rand_coeffs(&mut rng, 12);
+        // every magnitude counts: coefficients far below and far above 1 (no coefficient may be dropped or
+        // clamped by an absolute threshold), evaluated where their term matters
+        let wide = i % 4 == 3;
+        if wide {
+            for c in cs.iter_mut() {
+                if rng.chance(1, 2) {
+                    let e = rng.range(-60, 60) as i32;
+                    *c = rng.uniform(1.0, 9.0) * 10f64.powi(e) * if rng.chance(1, 2) { -1.0 } else { 1.0 };
+                }
+            }
+        }
         let p = SimplePolynomial { coefficients: cs, variable: Some('x') };
         let x = match rng.below(6) {
             0 => 0.0,
             1 => -rng.uniform(0.0, 4.0),
             2 => rng.dyadic(64, 4),
+            3 if wide => rng.uniform(1.0, 9.0) * 10f64.powi(rng.range(-8, 8) as i32),
             _ => rng.uniform(-4.0, 4.0),
         };
         emit(format!("eval {} {} {}", i % 3, req_simple(&p), rbits(x)));
